@@ -1,2 +1,6 @@
 //! Shared helpers for the driver-level checks (bins under src/bin).
+pub mod retrysym; // C06: failure alphabet as driver error values + mappings to cqlref::retry
+pub mod topo; // C04/C05: small-topology enumerator, H-CLUSTER builders, scripted RNG
+pub mod tabmodel; // C15: TabletsInfo model (H-TABLETS) + reference map glue
 pub mod baton; // C19-B: E-THREAD baton scheduler (two OS threads at hooked yield points)
+pub mod router_harness; // C02-B / C10-A: E-ASYNC world around the real Connection::router (H-CONN-ROUTER), scripted peer, frame helper
